@@ -46,6 +46,35 @@ pub fn silence_stdout() {
     }
 }
 
+static QUIET: std::sync::atomic::AtomicBool = std::sync::atomic::AtomicBool::new(false);
+
+/// panics raised while `catch_async` runs are outcomes (`panic`), not failures of the harness: keep them quiet
+pub fn install_panic_hook() {
+    let default = std::panic::take_hook();
+    std::panic::set_hook(Box::new(move |info| {
+        if !QUIET.load(std::sync::atomic::Ordering::SeqCst) {
+            default(info);
+        }
+    }));
+}
+
+/// run a future of the real code, mapping a panic to `Err(message)`
+pub async fn catch_async<F: std::future::Future>(f: F) -> Result<F::Output, String> {
+    use futures::FutureExt;
+    QUIET.store(true, std::sync::atomic::Ordering::SeqCst);
+    let r = std::panic::AssertUnwindSafe(f).catch_unwind().await;
+    QUIET.store(false, std::sync::atomic::Ordering::SeqCst);
+    r.map_err(|e| {
+        if let Some(s) = e.downcast_ref::<&str>() {
+            s.to_string()
+        } else if let Some(s) = e.downcast_ref::<String>() {
+            s.clone()
+        } else {
+            "panic".to_string()
+        }
+    })
+}
+
 pub struct Retr(pub Arc<CertificateRepository>);
 #[async_trait::async_trait]
 impl CertificateRetriever for Retr {
@@ -129,6 +158,8 @@ pub struct SigFacts {
     pub owner: Vec<(u64, usize)>,
     /// identifier of the signature value (index into World::sigmas)
     pub sigma: usize,
+    /// the party whose key produced the signature (its key sits at the signature's slot)
+    pub signer: usize,
 }
 
 pub struct World {
@@ -158,6 +189,10 @@ pub struct World {
     /// for S: per entity the parties whose OWN valid signature was submitted (label = signer)
     pub own_valid: BTreeMap<usize, BTreeSet<usize>>,
     pub tags: BTreeSet<String>,
+    pub last_cert_count: usize,
+    pub last_dump: Dump,
+    /// compute the slot owner of every signature (C16 only; costs one signing per party)
+    pub want_owner: bool,
 }
 
 pub fn ent_key(set: &SignedEntityType) -> String {
@@ -231,6 +266,9 @@ impl World {
             sfails: vec![],
             own_valid: BTreeMap::new(),
             tags: BTreeSet::new(),
+            last_cert_count: 1,
+            last_dump: Dump::default(),
+            want_owner: false,
         };
         // `init_state_from_fixture_for_genesis` records every fixture signer under the keys 0 and 1
         w.regs.insert(0, (0..n_signers).collect());
@@ -304,7 +342,9 @@ impl World {
             let sws: Vec<_> = parties.iter().map(|p| all[*p].signer_with_stake.clone()).collect();
             let builder = SignerBuilder::new(&sws, &self.params).ok()?;
             let multi_signer = builder.build_multi_signer();
-            let avk_hex = multi_signer.compute_aggregate_verification_key().to_concatenation_aggregate_verification_key().to_json_hex().ok()?;
+            let avk_conc: mithril_common::crypto_helper::ProtocolAggregateVerificationKeyForConcatenation =
+                multi_signer.compute_aggregate_verification_key().to_concatenation_aggregate_verification_key().to_owned().into();
+            let avk_hex = avk_conc.to_json_hex().ok()?;
             let mut signers = BTreeMap::new();
             for p in &parties {
                 let f = &all[*p];
@@ -331,7 +371,7 @@ impl World {
         let mut raw_oms: Vec<(String, i64, String, i64, i64, i64, String)> = vec![];
         {
             let mut st = c
-                .prepare("select open_message_id, signed_entity_type_id, beacon, epoch_setting_id, is_certified, is_expired, protocol_message from open_message order by rowid")
+                .prepare("select open_message_id, signed_entity_type_id, cast(beacon as text), epoch_setting_id, is_certified, is_expired, protocol_message from open_message order by rowid")
                 .unwrap();
             while let Ok(sqlite::State::Row) = st.next() {
                 raw_oms.push((
@@ -355,7 +395,7 @@ impl World {
         let mut raw_certs: Vec<(String, Option<String>, i64, i64, String)> = vec![];
         {
             let mut st = c
-                .prepare("select certificate_id, parent_certificate_id, epoch, signed_entity_type_id, signed_entity_beacon from certificate order by rowid")
+                .prepare("select certificate_id, parent_certificate_id, epoch, signed_entity_type_id, cast(signed_entity_beacon as text) from certificate order by rowid")
                 .unwrap();
             while let Ok(sqlite::State::Row) = st.next() {
                 raw_certs.push((
@@ -400,7 +440,7 @@ impl World {
         let mut raw_ses: Vec<(i64, String, String)> = vec![];
         {
             let mut st = c
-                .prepare("select signed_entity_type_id, beacon, certificate_id from signed_entity order by rowid")
+                .prepare("select signed_entity_type_id, cast(beacon as text), certificate_id from signed_entity order by rowid")
                 .unwrap();
             while let Ok(sqlite::State::Row) = st.next() {
                 raw_ses.push((
@@ -418,13 +458,9 @@ impl World {
     }
 
     fn entity_of_row(&mut self, ty: i64, beacon: &str) -> usize {
-        // the beacon column holds the JSON beacon; the harness key uses the same serialisation
-        let k = format!("{}:{}", ty, beacon);
-        if let Some(i) = self.ent_keys.get(&k) {
-            return *i;
-        }
-        // unknown to the harness so far: rebuild the typed value from the JSON beacon
-        let set = SignedEntityType::hydrate(ty as usize, beacon).expect("hydrate signed entity type");
+        // rebuild the typed value from the JSON beacon exactly as the aggregator's records do
+        let set = mithril_persistence::database::Hydrator::hydrate_signed_entity_type(ty as u16, beacon)
+            .expect("hydrate signed entity type");
         self.entity_id(&set)
     }
 
@@ -487,7 +523,9 @@ impl World {
 
     fn record(&mut self, ev: String, outcome: &str) -> String {
         let d = self.dump();
+        self.last_cert_count = d.certs.len();
         let o = format!("{}/{}/{}", label_short(self.tester.runtime.state_label()), outcome, self.show(&d));
+        self.last_dump = d;
         self.events.push(ev);
         self.obs.push(o.clone());
         o
@@ -500,9 +538,15 @@ impl World {
         let tp = self.time_point().await;
         let avail = self.avail(&tp);
         let before = self.dump();
-        let r = self.tester.cycle().await;
+        let r = catch_async(self.tester.cycle()).await;
         self.settle().await;
-        let ok = r.is_ok();
+        let ok = matches!(r, Ok(Ok(_)));
+        let outcome = match &r {
+            Ok(Ok(_)) => "ok",
+            Ok(Err(_)) => "err",
+            Err(_) => "panic",
+        };
+        self.tags.insert(format!("tick-{}", outcome));
         let after = self.dump();
         // message of the open message created by this tick, if any (an input of the model: message computation is outside it)
         let newmsg = after
@@ -512,7 +556,7 @@ impl World {
             .map(|o| o.msg.to_string())
             .unwrap_or("n".into());
         let ev = format!("(tick,{},{},{})", tp.epoch.0, hutil::list(&avail), newmsg);
-        self.record(ev, if ok { "ok" } else { "err" });
+        self.record(ev, outcome);
         (ok, after)
     }
 
@@ -581,39 +625,46 @@ impl World {
     }
 
     /// facts about a signature the model takes as inputs (results of cryptographic primitives)
-    pub fn facts(&mut self, ent: usize, label: usize, sig: &SingleSignature, msg: &ProtocolMessage, auth: bool, chain_epoch: u64) -> SigFacts {
+    pub fn facts(&mut self, ent: usize, label: usize, signer: usize, sig: &SingleSignature, msg: &ProtocolMessage, auth: bool, chain_epoch: u64) -> SigFacts {
         let msg_id = self.msg_id(msg);
         let mut ok = vec![];
         let mut owner = vec![];
-        let lo = chain_epoch.saturating_sub(2).max(1);
-        for e in lo..=chain_epoch + 1 {
-            let slot = sig.to_protocol_signature().signer_index;
+        let self_owner = self.want_owner;
+        // primitive verdicts, computed with the STM library directly (not through the code under test):
+        // the signature verifies for `msg` with the producer's own key and stake under the aggregate key
+        // of the signer set of key e-1, and the producer belongs to that set
+        let stm_params: mithril_common::crypto_helper::ProtocolParameters = self.params.clone().into();
+        let stm_sig = sig.to_protocol_signature();
+        let bytes = msg.to_message();
+        let own = if signer < self.n() { Some(self.fixture.signers_fixture()[signer].signer_with_stake.clone()) } else { None };
+        for e in 1..=chain_epoch + 1 {
+            let Some(own) = &own else { break };
             if let Some(kc) = self.key_crypto(e - 1) {
-                if kc.multi_signer.verify_single_signature(&msg.to_message(), sig).is_ok() {
+                if !kc.parties.contains(&signer) {
+                    continue;
+                }
+                let avk = kc.multi_signer.compute_aggregate_verification_key();
+                let vk = own.verification_key_for_concatenation.vk;
+                if stm_sig.verify(&stm_params, &vk, &own.stake, &avk, bytes.as_bytes()).is_ok() {
                     ok.push(e);
-                    // the party whose key sits at the signature's slot in the closed registration of this key
-                    let mut own = usize::MAX;
-                    for (p, s) in &kc.signers {
-                        if let Ok(Some(x)) = s.sign(msg) {
-                            if x.to_protocol_signature().signer_index == slot {
-                                own = *p;
-                            }
-                        }
+                    if self_owner {
+                        owner.push((e, signer));
                     }
-                    owner.push((e, own));
                 }
             }
         }
         let idx = sig.to_protocol_signature().get_concatenation_signature_indices();
         let sigma = self.sigma_id(sig);
-        SigFacts { ent, label, msg: msg_id, ok, idx, auth, owner, sigma }
+        SigFacts { ent, label, msg: msg_id, ok, idx, auth, owner, sigma, signer }
     }
 
     pub fn sig_event(f: &SigFacts) -> String {
         format!(
-            "(sig,{},{},{},{},{},{})",
+            "(sig,{},{},{},{},{},{},{},{})",
             f.ent,
             f.label,
+            f.signer,
+            f.sigma,
             f.msg,
             hutil::list(&f.ok),
             hutil::list(&f.idx),
@@ -625,15 +676,16 @@ impl World {
     /// MithrilCertifierService — the entrance shared by the HTTP route and the queue consumer)
     pub async fn submit(&mut self, f: &SigFacts, sig: &SingleSignature) -> String {
         let mut s = sig.clone();
-        s.party_id = if f.label < self.n() { self.party_ids[f.label].clone() } else { format!("pool1unregistered{}", f.label) };
+        s.party_id = if f.label < self.n() { self.party_ids[f.label].clone() } else { "pool1unregisteredpartyofnobody".to_string() };
         s.authentication_status =
             if f.auth { SingleSignatureAuthenticationStatus::Authenticated } else { SingleSignatureAuthenticationStatus::Unauthenticated };
         let set = self.entities[f.ent].clone();
-        let r = self.tester.dependencies.certifier_service.register_single_signature(&set, &s).await;
+        let r = catch_async(self.tester.dependencies.certifier_service.register_single_signature(&set, &s)).await;
         let outcome = match &r {
-            Ok(SignatureRegistrationStatus::Registered) => "registered",
-            Ok(SignatureRegistrationStatus::Buffered) => "buffered",
-            Err(e) => match e.downcast_ref::<CertifierServiceError>() {
+            Err(_) => "panic",
+            Ok(Ok(SignatureRegistrationStatus::Registered)) => "registered",
+            Ok(Ok(SignatureRegistrationStatus::Buffered)) => "buffered",
+            Ok(Err(e)) => match e.downcast_ref::<CertifierServiceError>() {
                 Some(CertifierServiceError::NotFound(_)) => "notfound",
                 Some(CertifierServiceError::AlreadyCertified(_)) => "certified",
                 Some(CertifierServiceError::Expired(_)) => "expired",
@@ -814,6 +866,8 @@ impl World {
         }
     }
 }
+
+pub mod walk;
 
 pub fn first_line(s: &str) -> String {
     s.lines().next().unwrap_or("").chars().take(200).collect()
